@@ -271,7 +271,10 @@ class CouplingLevyCopulaSimulationFixedTimes(CouplingLevyCopulaSimulation):
                 fines_states_values[:, k + 1] = slice_fine_values[-1]
                 coarse_states_values[:, k + 1] = slice_coarse_values[-1]
 
-        return fines_states_values, coarse_states_values
+        # both chains restart at the origin in every interval: cumulate the interval totals
+        return np.cumsum(fines_states_values, axis=1), np.cumsum(
+            coarse_states_values, axis=1
+        )
 
     def simulate_one_path_with_coupling(self):
         # simulate the jump part first
